@@ -44,6 +44,7 @@ ASSUMPTIONS = ['coordinates are exact integers in the geometry model; float roun
                'constitutionally distinct substituents, not proved']
 
 _state = {}
+KNOWN_SPIRO = 'C12/non-stereogenic-atom-offered-or-labelled/spiro-atom-with-symmetric-ring-next-to-ring-stereocentre'
 KNOWN_CT_MAP = 'C12/written-configuration-differs/conjugated-double-bonds-in-a-ring'
 
 
@@ -400,6 +401,7 @@ def correspond(ctx):
     stream_allenes(ctx)
     stream_history(ctx)
     stream_axis(ctx)
+    stream_gate(ctx)
     stream_allene_wedges(ctx)
     stream_allene_wedge_model(ctx)
     ctx.cov['programs'] += 3   # ring_attached_cumulenes / ring linkers via chiral_*, add_wedge allene branch, _wedge_map allene orders
@@ -506,6 +508,8 @@ def probe(inp):
         eq = a == b
         return eq != inp['same'], (f"{inp['a']!r} -> {str(a)!r}; {inp['b']!r} -> {str(b)!r}; equal={eq}, "
                                    f"expected {'equal' if inp['same'] else 'different'} (RDKit: {rd_canon(inp['a'])!r} vs {rd_canon(inp['b'])!r})")
+    if kind == 'gate':
+        return gate_case(inp['template'], inp['seed'], 12)
     if kind == 'axis':
         return axis_case(inp['spec'], inp['seed'], 24)
     if kind == 'allene-wedge':
@@ -2643,3 +2647,192 @@ def stream_allene_wedge_model(ctx):
                     mol._atoms[c]._stereo = None
     aw.run()
     ws.run()
+
+
+# ================================================================================================
+# round 3: which atoms may carry a tetrahedral label at all (gate conditions: element, charge, radical, bond orders,
+# ring linkers with a symmetric ring) — chython's candidates vs RDKit's potential centres, under renumbering
+# ================================================================================================
+
+SPIRO_PATHS_SYM = ['CC', 'CCC', 'CCCC', 'CCCCC', 'COC', 'CC(C)C', 'C=CC=C', 'CC(=O)C', 'CNC']
+SPIRO_PATHS_UNSYM = ['OC', 'OCC', 'CCO', 'C=CC', 'C(C)CC', 'NC(=O)C', 'CCCO', 'SCC', 'C(F)C', 'C=CCC']
+
+GATE_TEMPLATES = [
+    # carbon radicals / ions with three different heavy neighbours, alone and next to a real centre
+    'C[C](F)Cl |^1:1|', 'CC[C](O)N |^1:2|', 'OC[C](C)N |^1:2|', 'C[C](F)C(C)(N)O |^1:1|', 'C[C](Cl)C(F)N |^1:1|', 'C1CC[C](C)O1 |^1:3|',
+    'F[C](Cl)C1CCCO1 |^1:1|', 'C[C+](F)Cl', 'C[C-](F)Cl', 'CC[C+](O)N', 'C[C-](Cl)C(F)N', 'C[CH](F)Cl', 'CC(F)(Cl)Br', 'C[N+](F)(Cl)Br', 'C[Si](F)(Cl)Br',
+    'C[B-](F)(Cl)Br', 'CP(F)Cl', 'CS(=O)CC', 'CC(=O)C(F)Cl', 'CC(F)=C(Cl)Br', 'C[C](F)=O', 'CC(F)(Cl)[Li]', 'C[C]([Na])(F)Cl', 'C[CH]C(F)Cl |^1:1|',
+    '[CH2]C(F)(Cl)C |^1:0|', 'C[C](C)C(F)(Cl)Br |^1:1|', 'C[C](N)C1CC1 |^1:1|', 'O[C](F)C=C |^1:1|', 'CC(C)[C](F)Cl |^1:3|', 'C[C]1CCOC1 |^1:1|',
+    # ordinary controls
+    'CC(F)Cl', 'CC(O)C(N)C', 'C1CC(C)CCC1O', 'CC1CCC(C)CC1', 'C1CCC2(C1)CCCC2', 'CC(C)C(C)C',
+]
+
+
+def gate_templates():
+    out = list(GATE_TEMPLATES)
+    for p in SPIRO_PATHS_SYM + SPIRO_PATHS_UNSYM:
+        for q in SPIRO_PATHS_SYM[:5] + SPIRO_PATHS_UNSYM:
+            out.append(f'C12({p}1){q}2')
+    # spiro atom plus a substituted far ring atom, fused / bridged linkers that share more than one atom
+    out += ['C1CC2(C1)CC(F)C2', 'CC1CC2(C1)CC(F)C2', 'C1CC2(CC1)OCCO2', 'C1CCC2(CC1)OCC(C)O2', 'C1CC2(CCC1O)CCNC2', 'C1CC2CCC1C2', 'C1CC2CC1CO2',
+            'C1CC12CC2', 'C1CC12CO2', 'O=C1CCC2(C1)CCCC2', 'O=C1CCC2(CC1)CCOC2', 'C1CC2(C1)C1(CCC1)C2', 'C1CCC2(C1)CC[C](C)C2 |^1:8|']
+    return out
+
+
+def rd_renumbered(smi, rng):
+    """(cx-smiles of a randomly renumbered copy, list: output position -> original atom index)"""
+    from rdkit import Chem
+    m = Chem.MolFromSmiles(smi)
+    if m is None:
+        return None, None
+    perm = list(range(m.GetNumAtoms()))
+    rng.shuffle(perm)
+    m2 = Chem.RenumberAtoms(m, perm)          # new atom i is old atom perm[i]
+    s = Chem.MolToCXSmiles(m2, canonical=False)
+    if Chem.MolToSmiles(m2, canonical=False) != s.split(' ')[0]:     # sets _smilesAtomOutputOrder (same traversal)
+        return None, None
+    order = [int(x) for x in _re.findall(r'\d+', m2.GetProp('_smilesAtomOutputOrder'))]
+    return s, [perm[i] for i in order]
+
+
+def rd_potential_centres(smi):
+    from rdkit import Chem
+    m = Chem.MolFromSmiles(smi)
+    return {e.centeredOn for e in Chem.FindPotentialStereo(m) if e.type == Chem.StereoType.Atom_Tetrahedral}, m
+
+
+def mark_atom_variants(smi, k):
+    """'@' and '@@' written on the k-th atom token of an unmarked (CX)SMILES when it is a carbon written as C, [C], [CH], [C+], [C-]"""
+    body, _, cx = smi.partition(' ')
+    toks = _re.findall(r'\[[^\]]*\]|Cl|Br|[BCNOPSFI]|[bcnops]|.', body)
+    idx = -1
+    for j, t in enumerate(toks):
+        if _re.fullmatch(r'\[[^\]]*\]|Cl|Br|[BCNOPSFI]|[bcnops]', t):
+            idx += 1
+            if idx == k:
+                if t == 'C':
+                    h = None
+                elif _re.fullmatch(r'\[CH?[+-]?\]', t):
+                    h = t
+                else:
+                    return []
+                outs = []
+                for mark in ('@', '@@'):
+                    if h is None:
+                        outs.append((mark, None))
+                    else:
+                        outs.append((mark, t[:2] + mark + t[2:]))
+                return [(''.join(toks[:j] + [new] + toks[j + 1:]) + ((' ' + cx) if cx else ''), mark) for mark, new in outs if new]\
+                    or [(None, k)]
+    return []
+
+
+def proven_nonstereogenic(rm):
+    """atoms for which a constitutional automorphism fixes the atom and permutes its neighbours oddly (implicit H fixed):
+    inverting the atom alone gives the same molecule, so by itself it cannot be a stereocentre. Brute force through RDKit's
+    self-match (independent of chython); ring pairs such as 1,4-dimethylcyclohexane are excluded by the caller through
+    RDKit's potential-stereo set."""
+    out = set()
+    autos = rm.GetSubstructMatches(rm, uniquify=False, useChirality=False, maxMatches=20000)
+    for a in rm.GetAtoms():
+        x = a.GetIdx()
+        nb = [n.GetIdx() for n in a.GetNeighbors()]
+        if len(nb) not in (3, 4):
+            continue
+        for sig in autos:
+            if sig[x] != x:
+                continue
+            img = [sig[n] for n in nb]
+            if sorted(img) == sorted(nb) and odd(img, nb):
+                out.add(x)
+                break
+    return out
+
+
+def gate_case(template, seed, n_spell=6):
+    """(fails, what). Atoms chython offers as (or keeps labelled as) tetrahedral stereocentres must be potential centres
+    for RDKit as well, in every renumbering; a mark on a carbon that RDKit does not consider a potential centre is dropped
+    and `@` / `@@` give one molecule."""
+    import random as _r
+    from chython import smiles
+    from rdkit import Chem
+    rng = _r.Random(seed)
+    rd, rm = rd_potential_centres(template)
+    dead = proven_nonstereogenic(rm) - rd      # atoms that are certainly not stereocentres
+    ri = rm.GetRingInfo()
+    res, known = [], False
+    for _ in range(n_spell):
+        smi, order = rd_renumbered(template, rng)
+        if smi is None:
+            return False, 'RDKit cannot read the template'
+        try:
+            mol = smiles(smi)
+        except Exception as e:
+            return False, f'skipped: chython cannot read {smi!r} ({type(e).__name__})'
+        if len(mol) != len(order):
+            return False, 'skipped: atom count differs (explicit hydrogens)'
+        offered = {order[n - 1] for n in mol.chiral_tetrahedrons}
+        extra = offered & dead
+        if extra:
+            # class of the open finding: a spiro atom with one symmetric ring, offered together with another ring atom
+            known = all(ri.NumAtomRings(x) == 2 and any(y != x and any(x in r and y in r for r in ri.AtomRings()) for y in offered)
+                        for x in extra)
+            res.append(f'{smi!r}: chiral_tetrahedrons offers atom(s) {sorted(n for n in mol.chiral_tetrahedrons if order[n - 1] in extra)} '
+                       f'that RDKit does not consider potential stereocentres (RDKit: {sorted(rd)} in template numbering of {template!r})')
+            break
+        plain = str(mol)
+        for pos in range(len(order)):
+            a = rm.GetAtomWithIdx(order[pos])
+            if a.GetSymbol() != 'C' or order[pos] not in dead or a.GetDegree() not in (3, 4) or \
+                    any(b.GetBondTypeAsDouble() != 1 for b in a.GetBonds()):
+                continue
+            body, _, cx = smi.partition(' ')
+            toks = _re.findall(r'\[[^\]]*\]|Cl|Br|[BCNOPSFI]|[bcnops]|.', body)
+            ai = [j for j, t in enumerate(toks) if _re.fullmatch(r'\[[^\]]*\]|Cl|Br|[BCNOPSFI]|[bcnops]', t)]
+            t = toks[ai[pos]]
+            nh = a.GetTotalNumHs()
+            if t == 'C':
+                new = lambda mk: f'[C{mk}{"H" if nh == 1 else ""}]' if nh <= 1 else None
+            elif _re.fullmatch(r'\[CH?\d?[+-]?\]', t):
+                new = lambda mk, t=t: t[:2] + mk + t[2:]
+            else:
+                continue
+            strs = {}
+            for mk in ('@', '@@'):
+                tk = new(mk)
+                if tk is None:
+                    continue
+                v = ''.join(toks[:ai[pos]] + [tk] + toks[ai[pos] + 1:]) + ((' ' + cx) if cx else '')
+                try:
+                    strs[v] = str(smiles(v))
+                except Exception as e:
+                    strs[v] = f'!{type(e).__name__}'
+            bad = {v: s for v, s in strs.items() if s != plain}
+            if bad:
+                v, s = next(iter(bad.items()))
+                res.append(f'{v!r}: the marked atom is not a potential stereocentre for RDKit, but chython keeps a label: {s!r} vs unmarked {plain!r}')
+                break
+        if res:
+            break
+    if res and known:
+        res[0] = '[spiro atom with a symmetric ring next to a ring stereocentre] ' + res[0]
+    return bool(res), '; '.join(res[:2]) if res else f'{template!r}: no atom that is provably not a stereocentre is offered or keeps a mark (RDKit potential centres {sorted(rd)})'
+
+
+def stream_gate(ctx):
+    tpl = gate_templates()
+    if ctx.quick:
+        tpl = GATE_TEMPLATES[:24] + ctx.rng.sample(tpl[len(GATE_TEMPLATES):], 60)
+    for t in tpl:
+        seed = ctx.rng.randrange(10 ** 6)
+        ctx.count(('gate', t, seed))
+        try:
+            fails, what = gate_case(t, seed, 4 if ctx.quick else 12)
+        except Exception as e:
+            ctx.dist(f'gate-skip:{type(e).__name__}')
+            continue
+        ctx.dist('gate:' + ('FAIL' if fails else 'skipped' if what.startswith('skipped') or 'cannot' in what else 'ok'))
+        if fails and what.startswith('[spiro atom with a symmetric ring next to a ring stereocentre]'):
+            ctx.fail(KNOWN_SPIRO, what, {'kind': 'gate', 'template': t, 'seed': seed})
+        elif fails:
+            ctx.fail(f'C12/non-stereogenic-atom-offered-or-labelled/{t}', what, {'kind': 'gate', 'template': t, 'seed': seed})
